@@ -55,6 +55,11 @@ TranslateFails ==
         THEN {"PackageComplete"} ELSE {})
   \cup (IF Case.translate.outcome = "ok" /\ Case.translate.residual # <<>> THEN {"NoResidualDirective"} ELSE {})
 
+\* C10: "assuming the method returns double" is logged exactly when an undeclared method is called
+WarnFails == IF Case.translate.outcome = "ok" /\ Case.translate.checkwarn
+                /\ (Case.translate.nwarn > 0) # UndeclaredUse(Q, <<>>, Sig)
+             THEN {"WarnsIffUndeclared"} ELSE {}
+
 CompileFails == IF Case.compile.ok THEN {} ELSE {"Compiles"}
 
 \* C06: every collection the query uses brings the link library the experiment documents for it
@@ -121,7 +126,7 @@ Finish == /\ pc' = "done"
 
 Translate ==
   /\ pc = "new"
-  /\ ReportAll(TranslateFails, 0, 0)
+  /\ ReportAll(TranslateFails \cup WarnFails, 0, 0)
   /\ IF Case.translate.outcome = "ok" /\ Case.support # "MUST_REJECT"
      THEN pc' = "translated" /\ UNCHANGED <<c, run, pos, judged, skipped>>
      ELSE Finish
